@@ -400,6 +400,48 @@ pub trait OutMode: 'static {
     type Out;
     fn conv(t: Tok, fail: bool) -> Self::Out;
 }
+/// Zero-sized output WITH a destructor (a permit/guard-like token). It cannot carry an identity:
+/// only the number of live ones is known.
+pub struct ZTok;
+impl Drop for ZTok {
+    fn drop(&mut self) {
+        if F.with(|f| f.aborting.get()) {
+            return;
+        }
+        with(|w| {
+            w.zst_dropped += 1;
+            w.log(0x71, 0);
+        });
+    }
+}
+fn make_ztok(t: Tok) -> ZTok {
+    let id = t.id;
+    with(|w| {
+        w.toks[id as usize].nodrop = true;
+        w.toks[id as usize].handed_out = true;
+        w.zst_created += 1;
+    });
+    std::mem::forget(t);
+    ZTok
+}
+pub struct PlainZst;
+pub struct TryZst;
+impl OutMode for PlainZst {
+    type Out = ZTok;
+    fn conv(t: Tok, _fail: bool) -> ZTok {
+        make_ztok(t)
+    }
+}
+impl OutMode for TryZst {
+    type Out = Result<ZTok, Tok>;
+    fn conv(t: Tok, fail: bool) -> Result<ZTok, Tok> {
+        if fail {
+            Err(t)
+        } else {
+            Ok(make_ztok(t))
+        }
+    }
+}
 pub struct PlainRaw;
 pub struct TryRaw;
 impl OutMode for PlainRaw {
@@ -524,6 +566,24 @@ impl<P> Stream for SimSrc<P> {
     fn poll_next(self: Pin<&mut Self>, cx: &mut Context<'_>) -> Poll<Option<Tok>> {
         let addr = &*self as *const Self as usize;
         src_poll(self.id, addr, cx)
+    }
+    /// Honest hint (when the run asks for one): what is available now is a lower bound; a closed
+    /// source yields exactly that much; an always-ready source answers like `stream::repeat`.
+    fn size_hint(&self) -> (usize, Option<usize>) {
+        let id = self.id;
+        with(|w| {
+            if !w.src_hints {
+                return (0, None);
+            }
+            let c = &w.children[id as usize];
+            if c.avail == INF {
+                (usize::MAX, None)
+            } else if c.closed {
+                (c.avail as usize, Some(c.avail as usize))
+            } else {
+                (c.avail as usize, None)
+            }
+        })
     }
 }
 impl<P> Drop for SimSrc<P> {
